@@ -154,6 +154,7 @@ type runner struct {
 	// (everything before it has certainly been consumed); reset by a plain command, whose echo read
 	// swallows stale bytes
 	lastMatch int
+	interim   []*regexp.Regexp // the slice passed with WithInterimPromptPattern in the current operation
 	dev       *simDev
 	gd        *generic.Driver
 	nd        *network.Driver
@@ -268,6 +269,13 @@ func (r *runner) plain(c Cmd, where string) *mon.Result {
 	if c.Eager {
 		opo = append(opo, opoptions.WithEager())
 	}
+	stallFrom := 0
+	if c.EchoStall {
+		// the device's echo stops after EchoKeep bytes: nothing beyond that offset is delivered
+		stallFrom = len(r.conn.Stream()) + c.EchoKeep
+		r.conn.SetFault(devsim.FaultStall, stallFrom)
+		opo = append(opo, opoptions.WithTimeoutOps(time.Duration(c.TimeoutMS)*time.Millisecond))
+	}
 	var res string
 	var err error
 	switch {
@@ -286,6 +294,35 @@ func (r *runner) plain(c Cmd, where string) *mon.Result {
 		if e == nil {
 			res = x.Result
 		}
+	}
+	if c.EchoStall {
+		// Whatever the call reports (its timeout error is not judged here): the device must not have
+		// received anything behind the command while the command's echo is incomplete.
+		time.Sleep(5 * time.Millisecond)
+		log := r.conn.Log()
+		ws := writesOf(log, from, len(log))
+		r.obs["echo_stall_commands"]++
+		r.tag("echo-stall")
+		seen := false
+		for _, i := range ws {
+			w := log[i]
+			if !seen {
+				seen = w.Data == c.Text
+				continue
+			}
+			echoEnd := stallFrom - c.EchoKeep + len(c.Text)
+			if w.Delivered < echoEnd {
+				return r.bad("c12/return-before-echo:echo-stalled", "%s %q: the device echoed %d of %d bytes (delivered %d, echo ends at stream offset %d), yet %q was written behind the command; the call returned %v",
+					where, c.Text, c.EchoKeep, len(c.Text), w.Delivered, echoEnd, w.Data, err)
+			}
+		}
+		if !seen {
+			return r.bad("c12/write-sequence:plain", "%s %q: command never written: %s", where, c.Text, fmtWrites(log, ws))
+		}
+		if err == nil {
+			return r.bad("c12/returned-without-echo", "%s %q: returned without error although only %d of %d echo bytes were delivered", where, c.Text, c.EchoKeep, len(c.Text))
+		}
+		return nil
 	}
 	if err != nil {
 		kw := "plain"
@@ -423,6 +460,19 @@ func (r *runner) checkDialogue(log []devsim.Event, ws []int, stream string, evs 
 				where, k, clip(stream[s0:end]))
 		}
 		mp[k] = s0 + p
+		if r.interim != nil && k+1 < sent && evs[k].Resp != "" {
+			// an interim-looking line ahead of the expected response: did a read end between the two?
+			if i := strings.Index(stream[s0:mp[k]], r.d.NL+r.d.InterimLine+r.d.NL); i >= 0 {
+				r.obs["interim_line_before_expected_response"]++
+				lineEnd := s0 + i + len(r.d.NL) + len(strings.TrimRight(r.d.InterimLine, " "))
+				for j := ws[2*k+1]; j < ws[2*k+2]; j++ {
+					if log[j].Kind == "read" && log[j].Delivered >= lineEnd && log[j].Delivered < mp[k] {
+						r.obs["interim_line_delivered_in_an_earlier_read_than_the_response"]++
+						break
+					}
+				}
+			}
+		}
 		if k+1 < sent {
 			w := log[ws[2*k+2]]
 			r.obs["pacing_checks"]++
@@ -542,6 +592,41 @@ func (r *runner) interactive(d *Desc, evs []*channel.SendInteractiveEvent, opo [
 	return got, err
 }
 
+// opOptions builds the option list of an interactive operation. Besides completion patterns and
+// exact matching, every option SendInteractive accepts at one of its doors appears in some cases;
+// in the library under test none of them changes what an interactive send does.
+func (r *runner) opOptions(d *Desc, callerComp []*regexp.Regexp) []util.Option {
+	var opo []util.Option
+	if d.Complete != "" {
+		opo = append(opo, opoptions.WithCompletePatterns(callerComp))
+	}
+	if d.Exact {
+		opo = append(opo, opoptions.WithExactMatchInput())
+	}
+	r.interim = nil
+	for _, o := range d.Opts {
+		r.tag("opt=" + o)
+		switch o {
+		case "interim":
+			r.interim = []*regexp.Regexp{regexp.MustCompile(d.InterimRe)}
+			opo = append(opo, opoptions.WithInterimPromptPattern(r.interim))
+		case "nostrip":
+			opo = append(opo, opoptions.WithNoStripPrompt())
+		case "timeout":
+			opo = append(opo, opoptions.WithTimeoutOps(opTimeout+time.Second))
+		case "eager":
+			opo = append(opo, opoptions.WithEager())
+		case "privlevel":
+			opo = append(opo, opoptions.WithPrivilegeLevel("exec")) // ignored by the generic and channel doors
+		case "failedwhen":
+			opo = append(opo, opoptions.WithFailedWhenContains([]string{"zzfailed"}))
+		case "stoponfailed":
+			opo = append(opo, opoptions.WithStopOnFailed())
+		}
+	}
+	return opo
+}
+
 // runOp runs one operation group (commands, the dialogue, commands) on the open session. callerComp
 // is the caller-owned slice passed with WithCompletePatterns when the operation uses completion
 // patterns (the same slice for every operation of a session).
@@ -563,17 +648,7 @@ func (r *runner) runOp(d *Desc, callerComp []*regexp.Regexp) (v *mon.Result, non
 		r.obs["fresh_sessions"]++
 	}
 	if n > 0 {
-		var opo []util.Option
-		var compWant []string
-		if d.Complete != "" {
-			for _, p := range callerComp {
-				compWant = append(compWant, p.String())
-			}
-			opo = append(opo, opoptions.WithCompletePatterns(callerComp))
-		}
-		if d.Exact {
-			opo = append(opo, opoptions.WithExactMatchInput())
-		}
+		opo := r.opOptions(d, callerComp)
 		evs, res, hidden := r.events(d)
 		from := len(r.conn.Log())
 		got, err := r.interactive(d, evs, opo)
@@ -596,6 +671,12 @@ func (r *runner) runOp(d *Desc, callerComp []*regexp.Regexp) (v *mon.Result, non
 		}
 		if v := r.checkDialogue(log, ws, stream, d.Events, sent, res, got, deliveredAtReturn, "SendInteractive"); v != nil {
 			return v, false
+		}
+		if r.interim != nil {
+			r.obs["interactive_ops_with_interim_patterns"]++
+			if r.interim[0] == nil || r.interim[0].String() != d.InterimRe {
+				return r.bad("c12/caller-patterns-modified", "the caller's interim pattern slice was changed by the call"), false
+			}
 		}
 		r.obs["dialogues"]++
 		r.obs["events_sent"] += int64(sent)
@@ -863,7 +944,12 @@ func RunEscalation(d Desc) mon.Result {
 		for _, x := range escDialogue {
 			evs = append(evs, &channel.SendInteractiveEvent{ChannelInput: x.Input, ChannelResponse: x.Resp, HideInput: x.Hidden})
 		}
-		resp, e2 := r.nd.SendInteractive(evs)
+		var opo []util.Option
+		if e.PrivOpt {
+			opo = append(opo, opoptions.WithPrivilegeLevel("privilege-exec"))
+			r.tag("opt=privlevel")
+		}
+		resp, e2 := r.nd.SendInteractive(evs, opo...)
 		err = e2
 		if e2 == nil {
 			got = resp.Result
